@@ -516,12 +516,15 @@ def rule_expected(ctx: Ctx, rule: str = "C01.expected"):
         fn = ctx.fn(key)
         kwname = fn.node.args.kwarg.arg if fn.node.args.kwarg else None
         found = False
-        for n in own_nodes(fn.node):
-            if isinstance(n, ast.Call) and isinstance(n.func, ast.Attribute) and n.func.attr == callee:
-                found = True
-                ok = kwname is not None and any(k.arg is None and show(k.value) == kwname for k in n.keywords)
-                rep.check(ok, rule, fn.loc(n), f"{key} forwards the registration options (**{kwname}) to `{callee}`", fn.key,
-                          norm_stmt(n))
+        seen_sites = set()
+        for p in ctx.paths(fn, inline=None, exc_edges="none", unroll=1):
+            for e in p.calls():
+                if isinstance(e.term.func, ast.Attribute) and e.term.func.attr == callee and id(e.node) not in seen_sites and not ctx.is_new_call(e):
+                    seen_sites.add(id(e.node))
+                    found = True
+                    ok = kwname is not None and any(k.arg is None and show(k.value) == kwname for k in e.term.keywords)
+                    rep.check(ok, rule, e.loc(), f"{key} forwards the registration options (**{kwname}) to `{callee}`", fn.key,
+                              norm_stmt(e.node))
         if not found:
             raise AnalysisError(f"anchor lost: {key} no longer calls {callee}")
     spec_init = ctx.fn("CallbackSpec.__init__")
